@@ -47,7 +47,56 @@ func checkC15(c *Check) {
 			}
 			return true
 		})
-		if binder == nil {
+		// ... or a function of the package that is handed the map of bindings and indexes it (the closure, extracted)
+		binderFns := map[*types.Func]bool{}
+		isMapParam := func(e ast.Expr) bool {
+			id, ok := ast.Unparen(e).(*ast.Ident)
+			if !ok {
+				return false
+			}
+			v, ok := info.Uses[id].(*types.Var)
+			if !ok {
+				return false
+			}
+			_, isMap := v.Type().Underlying().(*types.Map)
+			return isMap
+		}
+		ast.Inspect(fi.Decl.Body, func(n ast.Node) bool {
+			call, ok := n.(*ast.CallExpr)
+			if !ok {
+				return true
+			}
+			fn := Callee(info, call)
+			if fn == nil || fn.Pkg() != fi.Obj.Pkg() || fn == fi.Obj {
+				return true
+			}
+			cf := L.Funcs[fn]
+			if cf == nil || cf.Decl.Body == nil {
+				return true
+			}
+			getsMap := false
+			for _, a := range call.Args {
+				if isMapParam(a) {
+					getsMap = true
+				}
+			}
+			indexes := false
+			ast.Inspect(cf.Decl.Body, func(m ast.Node) bool {
+				if ix, ok := m.(*ast.IndexExpr); ok {
+					if t := info.TypeOf(ix.X); t != nil {
+						if _, isMap := t.Underlying().(*types.Map); isMap {
+							indexes = true
+						}
+					}
+				}
+				return true
+			})
+			if getsMap && indexes {
+				binderFns[fn] = true
+			}
+			return true
+		})
+		if binder == nil && len(binderFns) == 0 {
 			r1.Und("ddptypes.UnifyGenericType|binding step", fi.Decl.Pos(), "the closure that binds type parameters was not found")
 		} else {
 			n := 0
@@ -63,7 +112,7 @@ func checkC15(c *Check) {
 					return true
 				}
 				id, ok := call.Fun.(*ast.Ident)
-				if !ok || info.Uses[id] != binder {
+				if !(ok && binder != nil && info.Uses[id] == binder) && !binderFns[Callee(info, call)] {
 					return true
 				}
 				n++
